@@ -66,6 +66,25 @@ NEEDS = {
 }
 
 
+def needs_from_notes(d):
+    """first paragraph of agent_notes.txt that says what the mutation needs in order to manifest"""
+    p = os.path.join(d, 'agent_notes.txt')
+    if not os.path.exists(p):
+        return None
+    lines = open(p, errors='replace').read().split('\n')
+    for i, l in enumerate(lines):
+        if re.search(r'(?i)\b(needs?|needed|trigger|manifest)', l) and not re.search(r'(?i)watchdog', l):
+            para = [l.strip()]
+            for m in lines[i + 1:i + 6]:
+                if not m.strip():
+                    break
+                para.append(m.strip())
+            txt = ' '.join(para)
+            if len(txt) > 40:
+                return txt[:400]
+    return None
+
+
 def main():
     tier = os.environ.get('SEED_TIER', 'quick')
     seeds = sys.argv[1:] or sorted(d for d in os.listdir(SEEDED) if os.path.isdir(os.path.join(SEEDED, d)))
@@ -84,7 +103,7 @@ def main():
         meta.update({
             'id': s, 'property': prop, 'patch': patch,
             'origin': 'own' if s.startswith('own') else 'sub-agent given only the property text and a scratch worktree',
-            'needs_to_manifest': NEEDS.get(s, meta.get('needs_to_manifest', 'see agent_notes.txt')),
+            'needs_to_manifest': NEEDS.get(s) or needs_from_notes(d) or meta.get('needs_to_manifest', 'see agent_notes.txt'),
             'demonstration': 'demo.rs' if os.path.exists(os.path.join(d, 'demo.rs')) else None,
         })
         meta.setdefault('checks', {})[tier] = {
